@@ -14,13 +14,80 @@ def proj(o, idx):
     return [o[i] for i in idx]
 
 
+NAME_POOLS = [list('XYZWV'), list('WZYXA'), ['x1', 'x0', 'b', 'a', 'c2'], list('ABCDE'), ['a', 'b', 'X', 'Y', 'x0']]
+
+
+def rand_groups(rng, case, ng):
+    """`ng` groups of variable indices with repeats and overlaps whose coalesced space stays enumerable."""
+    n = case['n']
+    alph = case['space'][1] if case['space'] and case['space'][0] == 'cart' else case['alphabets']
+    while True:
+        groups = [[rng.randrange(n) for _ in range(rng.randint(1, 3))] for _ in range(ng)]
+        size = 1
+        for g in groups:
+            for i in g:
+                size *= len(alph[i])
+        if size <= 400:      # the model enumerates the coalesced space
+            return groups
+
+
+def rand_rename(rng, n, cur):
+    """New variable names for the same distribution: other names, the current names permuted, names overlapping
+    the current ones, or None (names cleared)."""
+    how = rng.choice(['fresh', 'fresh', 'permute', 'overlap', 'clear'])
+    if how == 'clear':
+        return None
+    if cur and how == 'permute' and n > 1:
+        new = list(cur)
+        while new == list(cur):
+            rng.shuffle(new)
+        return new
+    if cur and how == 'overlap':
+        spare = [x for pool in NAME_POOLS for x in pool if x not in cur]
+        new = list(cur[1:]) + [spare[0]]
+        if rng.random() < 0.5:
+            new.reverse()
+        return new
+    pools = [pl[:n] for pl in NAME_POOLS if pl[:n] != list(cur or [])]
+    return list(rng.choice(pools))
+
+
+def rand_history(rng, case):
+    """What happened to the source object before the operation under test: earlier marginal / marginalize / coalesce
+    calls on it (results discarded), renamings of its variables, replacement by its copy().  None of these changes
+    the joint distribution; the operation under test must answer for the object as it is at the time of the call.
+    Returns (steps, names at the time of the operation)."""
+    n = case['n']
+    cur = case['names']
+    steps = []
+    for _ in range(rng.randint(1, 4)):
+        what = rng.choice(['query', 'query', 'query', 'rename', 'rename', 'copy'])
+        if what == 'rename':
+            cur = rand_rename(rng, n, cur)
+            steps.append({'do': 'rename', 'names': cur})
+        elif what == 'copy':
+            steps.append({'do': 'copy'})
+        else:
+            kind = rng.choice(['marginal', 'marginal', 'marginalize', 'coalesce'])
+            st = {'do': kind, 'byname': bool(cur) and rng.random() < 0.6}
+            if kind == 'coalesce':
+                st['groups'] = rand_groups(rng, case, rng.randint(1, 2))
+            else:
+                st['rvs'] = rng.sample(range(n), rng.randint(0, n))
+            steps.append(st)
+    return steps, cur
+
+
 class C02(object):
     id = 'C02'
     rule = ("random valid joint distributions (5 outcome classes, 1-4 variables, heterogeneous alphabets, Cartesian / "
             "list / SampleSpace / CartesianProduct spaces with members outside the support, sparse/dense, trim, 6 bases, "
             "names) x an operation: marginal / marginalize of a random subset (by index or by name), or coalesce of 1-3 "
-            "groups with repeats and overlaps (extract when one group); non-trivial = the map merges at least two stored "
-            "outcomes or drops a variable")
+            "groups with repeats and overlaps (extract when one group); half of the cases give the source object a history "
+            "of 1-4 steps before the call (earlier marginal / marginalize / coalesce calls by index or name, renaming of "
+            "the variables to other / permuted / overlapping names or none, replacement by its copy()) and the call is "
+            "judged against the names at the time of the call; the staged marginal is taken by index and by name; "
+            "non-trivial = the map merges at least two stored outcomes or drops a variable")
     tolerances = {'values': 'exact when all probabilities are dyadic and base is linear, else rtol 1e-9 / atol 1e-12 in the linear domain'}
     exhaustive = {}
 
@@ -30,28 +97,33 @@ class C02(object):
             c = gen.rand_dist_case(rng, nmin=1, nmax=4)
             n = c['n']
             op = rng.choice(['marginal', 'marginal', 'marginalize', 'coalesce', 'coalesce', 'coalesce1'])
+            # half of the cases: the source object has a history (earlier queries, renamings, copy) before the call
+            now_names = c['names']
+            if rng.random() < 0.5:
+                c['history'], now_names = rand_history(rng, c)
             if op in ('marginal', 'marginalize'):
                 k = rng.randint(0, n)
                 rvs = rng.sample(range(n), k)
-                byname = bool(c['names']) and rng.random() < 0.6
+                byname = bool(now_names) and rng.random() < 0.6
                 c['op'] = {'kind': op, 'rvs': rvs, 'byname': byname,
                            'stage': rng.sample(rvs, rng.randint(0, len(rvs))) if op == 'marginal' else None}
             else:
-                ng = 1 if op == 'coalesce1' else rng.randint(1, 3)
-                while True:
-                    groups = [[rng.randrange(n) for _ in range(rng.randint(1, 3))] for _ in range(ng)]
-                    size = 1
-                    alph = c['space'][1] if c['space'] and c['space'][0] == 'cart' else c['alphabets']
-                    for g in groups:
-                        for i in g:
-                            size *= len(alph[i])
-                    if size <= 400:      # the model enumerates the coalesced space
-                        break
-                c['op'] = {'kind': op, 'groups': groups, 'byname': bool(c['names']) and rng.random() < 0.5}
+                groups = rand_groups(rng, c, 1 if op == 'coalesce1' else rng.randint(1, 3))
+                c['op'] = {'kind': op, 'groups': groups, 'byname': bool(now_names) and rng.random() < 0.5}
             yield c
 
     def shrink(self, case):
-        # drop outcomes, simplify flags
+        # shorten the history, drop outcomes, simplify flags
+        hist = case.get('history') or []
+        if hist:
+            c = dict(case)
+            c['history'] = []
+            yield c
+            if len(hist) > 1:
+                for i in range(len(hist)):
+                    c = dict(case)
+                    c['history'] = hist[:i] + hist[i + 1:]
+                    yield c
         outs, pmf = case['outs'], [Fraction(p) for p in case['pmf']]
         if len(outs) > 1:
             for i in range(len(outs)):
@@ -78,7 +150,7 @@ class C02(object):
         op = case['op']
         kind = op['kind']
         r.site = 'Distribution.' + ('coalesce' if kind.startswith('coalesce') else kind)
-        r.features = gen.case_features(case) + ['op=%s' % kind, 'byname=%s' % op.get('byname')]
+        r.features = gen.case_features(case) + ['op=%s' % kind]
         klass = case['klass']
         n = case['n']
         exact = gen.is_dyadic(case) and case['base'] == 'linear'
@@ -94,10 +166,68 @@ class C02(object):
             return r
         mdist = mj[2]
         names = case.get('names')
-        rv_mode = 'names' if op.get('byname') else 'indices'
+
+        # ---------------- history of the source object (none of it changes the joint distribution)
+        history = case.get('history') or []
+        queried_named = False       # an earlier query ran while the variables had names ...
+        requery = False             # ... and the variables were given other names afterwards
+        for step in history:
+            do = step['do']
+            if do == 'rename':
+                new = step['names']
+                if queried_named and new and list(new) != list(names or []):
+                    requery = True
+                names = list(new) if new else None
+                d.set_rv_names(names)
+            elif do == 'copy':
+                d = d.copy()
+            else:
+                hby = bool(step.get('byname')) and bool(names)
+                hmode = 'names' if hby else 'indices'
+                sel = (lambda idx: [names[i] for i in idx]) if hby else list
+                try:
+                    if do == 'coalesce':
+                        d.coalesce([sel(g) for g in step['groups']], rv_mode=hmode)
+                        kept = None
+                    elif do == 'marginal':
+                        hm = d.marginal(sel(step['rvs']), rv_mode=hmode)
+                        kept = sorted(step['rvs'])
+                    else:
+                        hm = d.marginalize(sel(step['rvs']), rv_mode=hmode)
+                        kept = [i for i in range(n) if i not in step['rvs']]
+                except Exception as e:  # noqa
+                    r.site = 'Distribution.' + do
+                    r.oracle_fail = 'earlier %s raised %s: %s on a valid selection' % (do, type(e).__name__, str(e)[:200])
+                    r.detail = {'exception': exc_enum(e)}
+                    return r
+                if kept is not None and names and kept:
+                    if list(hm.get_rv_names() or []) != [names[i] for i in kept]:
+                        r.site = 'Distribution.' + do
+                        r.oracle_fail = ('names of kept variables (earlier %s of %s): %s, expected %s'
+                                         % (do, step['rvs'], hm.get_rv_names(), [names[i] for i in kept]))
+                        return r
+                queried_named = queried_named or bool(names)
+            now = gen.obs_py(d, klass)
+            if now != src_py:
+                if do in ('rename', 'copy'):
+                    r.features.append('history-disagree')    # set_rv_names / copy: C09's business
+                    return r
+                r.site = 'Distribution.' + do
+                r.oracle_fail = 'the source distribution changed (earlier %s)' % do
+                r.detail = {'before': src_py, 'after': now}
+                return r
+        got_src_names = d.get_rv_names()
+        if list(got_src_names or []) != list(names or []):
+            r.features.append('history-disagree')            # set_rv_names / copy did not keep the names: C09
+            return r
+        r.features += ['history=%d' % len(history), 'requery-after-rename=%s' % requery]
+
+        byname = bool(op.get('byname')) and bool(names)
+        r.features.append('byname=%s' % byname)
+        rv_mode = 'names' if byname else 'indices'
 
         def nm(idx):
-            return [names[i] for i in idx] if op.get('byname') else list(idx)
+            return [names[i] for i in idx] if byname else list(idx)
 
         # ---------------- implementation
         try:
@@ -122,6 +252,7 @@ class C02(object):
             return r
         res_py = gen.obs_py(m, klass, nested=nested)
         after = gen.obs_py(d, klass)
+        after_names = d.get_rv_names()
 
         # ---------------- model
         if kind == 'marginal':
@@ -178,6 +309,8 @@ class C02(object):
         fails = None
         if after != src_py:
             fails = 'the source distribution changed'
+        if not fails and after_names != got_src_names:
+            fails = 'the names of the source distribution changed: %s -> %s' % (got_src_names, after_names)
         if not fails:
             for key in fib:
                 if key not in set(res_space):
@@ -207,7 +340,7 @@ class C02(object):
                 fails = 'stored outcomes are not duplicate-free and ordered like the sample space'
         if not fails and kind in ('marginal', 'marginalize') and names:
             if list(m.get_rv_names() or []) != [names[i] for i in idx]:
-                fails = 'names of kept variables: %s' % (m.get_rv_names(),)
+                fails = 'names of kept variables: %s, expected %s' % (m.get_rv_names(), [names[i] for i in idx])
         if not fails and kind == 'marginal' and op.get('stage') is not None and len(idx) > 0:
             # marginalising in stages equals marginalising at once
             J = sorted(op['stage'])
@@ -224,6 +357,19 @@ class C02(object):
                             fails = 'staged marginal P(%s)=%r, direct %r' % (o, x, y)
                 if not fails and list(a.get_rv_names() or []) != list(b.get_rv_names() or []):
                     fails = 'staged marginal names differ'
+                if not fails and names:
+                    # the same, selecting the second stage by the names the kept variables have now
+                    a2 = m.marginal([names[j] for j in J], rv_mode='names')
+                    oa2 = gen.obs_py(a2, klass)
+                    if oa2['space'] != ob['space'] or [o for o, _ in oa2['tab']] != [o for o, _ in ob['tab']]:
+                        fails = 'staged marginal (second stage by name) differs structurally from the direct one'
+                    else:
+                        for (o, x), (_, y) in zip(oa2['tab'], ob['tab']):
+                            if abs(lin(x) - lin(y)) > 1e-9:
+                                fails = 'staged marginal (second stage by name) P(%s)=%r, direct %r' % (o, x, y)
+                    if not fails and list(a2.get_rv_names() or []) != [names[j] for j in J]:
+                        fails = 'staged marginal (second stage by name) names: %s, expected %s' % (
+                            a2.get_rv_names(), [names[j] for j in J])
             except Exception as e:  # noqa
                 fails = 'staged marginal raised %s: %s' % (type(e).__name__, str(e)[:100])
         r.oracle_fail = fails
